@@ -202,8 +202,8 @@ func (r *Reporter) Finish() {
 			fmt.Printf("ENGINE-ERROR: property=%s ... and %d more\n", r.ID, len(r.engineErr)-5)
 			break
 		}
-		if len(e) > 1500 {
-			e = e[:1500] + "…"
+		if len(e) > 3000 {
+			e = e[:1000] + " … " + e[len(e)-2000:]
 		}
 		fmt.Printf("ENGINE-ERROR: property=%s %s\n", r.ID, e)
 	}
